@@ -485,3 +485,84 @@ class ReduceTuple(Contract):
             yield "metadata-dropped", len(result.attrs) == 0
         else:
             yield "scalar-is-the-first-cell", S.same(result, S.at(env["data"], *([0] * case["rank"])))
+
+
+
+class Percentile(Contract):
+    """dimarray.lib.percentile(a, pct, axis=d): NumPy's percentile of .values along the position of d (d by name or by
+    position) -- a scalar for a 1-d array and a single pct; for a single pct otherwise an array labelled with the remaining
+    axes in their original order; for a LIST of percentiles a new first dimension named '<d>_percentile' (or `newaxis`),
+    labelled by the percentiles, whose slice i is the result for pct[i] -- carrying the array's metadata; operand untouched.
+    Relative to NumPy: np.percentile is an uninterpreted function of (content, axis, q).  [C08]"""
+    target = "dimarray.lib.stats:percentile"
+    props = ("C08",)
+    inlined = ("_get_axis_info", "stack (own contract: Stack, C12) for a list of percentiles")
+
+    def cases(self, tier):
+        for rank in (1, 2, 3):
+            for d in range(rank):
+                if rank == 3 and tier == "quick" and d != 1:
+                    continue
+                for by in ("name", "position"):
+                    for q in ("scalar", "list", "list-newaxis"):
+                        if q == "list-newaxis" and by == "position":
+                            continue
+                        yield {"name": "r%d-axis%d-%s-q_%s" % (rank, d, by, q), "rank": rank, "d": d, "by": by, "q": q}
+
+    def bound_lengths(self, case):
+        return ["lab%d.n" % d for d in range(case["rank"])]
+
+    def setup(self, S, case):
+        return _setup(S, case["rank"])
+
+    QS = [10.0, 50.0, 90.0]
+
+    def call(self, fn, env):
+        import importlib
+        c = env["case"]
+        mod = importlib.import_module("dimarray.lib.stats")
+        axis = "x%d" % c["d"] if c["by"] == "name" else c["d"]
+        if c["q"] == "scalar":
+            return mod.percentile(env["arr"], 25.0, axis=axis)
+        if c["q"] == "list":
+            return mod.percentile(env["arr"], list(self.QS), axis=axis)
+        return mod.percentile(env["arr"], list(self.QS), axis=axis, newaxis="pct")
+
+    def post(self, S, case, env, result):
+        arr, labels, data, rank, d = env["arr"], env["labels"], env["data"], case["rank"], case["d"]
+        kept = [e for e in range(rank) if e != d]
+        shape = [S.n(labels[e]) for e in kept]
+        if case["q"] == "scalar":
+            ref = S.np_apply("percentile", data, axis=d, q=25.0)
+            if rank == 1:
+                yield "scalar-equals-numpys", S.land(S.lnot(S.is_dimarray(result)), S.same(result, ref))
+            else:
+                ok = S.is_dimarray(result) and tuple(result.dims) == tuple("x%d" % e for e in kept)
+                yield "remaining-dims-in-original-order", ok
+                if not ok:
+                    return
+                yield "remaining-axes-carry-their-labels", S.land(*[S.land(S.n(result.axes[i].values) == S.n(labels[e]), S.forall(0, S.n(labels[e]), lambda k, i=i, e=e: S.implies(
+                    k < S.n(result.axes[i].values), lambda: S.at(result.axes[i].values, k) == S.at(labels[e], k)))) for i, e in enumerate(kept)])
+                yield "values-equal-numpys-along-that-axis", _same_array(S, result.values, ref, shape)
+                yield "metadata-kept", dict(result.attrs) == env["attrs0"]
+        else:
+            ref = S.np_apply("percentile", data, axis=d, q=list(self.QS))
+            name = "pct" if case["q"] == "list-newaxis" else "x%d_percentile" % d
+            ok = S.is_dimarray(result) and tuple(result.dims) == (name,) + tuple("x%d" % e for e in kept)
+            yield "new-first-dimension-named-after-the-axis-then-the-remaining-dims", ok
+            if not ok:
+                return
+            P = result.axes[0].values
+            yield "new-axis-labelled-by-the-percentiles", S.land(S.n(P) == len(self.QS), *[S.at(P, i) == q for i, q in enumerate(self.QS)])
+            yield "remaining-axes-carry-their-labels", S.land(True, *[S.land(S.n(result.axes[i + 1].values) == S.n(labels[e]), S.forall(0, S.n(labels[e]), lambda k, i=i, e=e: S.implies(
+                k < S.n(result.axes[i + 1].values), lambda: S.at(result.axes[i + 1].values, k) == S.at(labels[e], k)))) for i, e in enumerate(kept)])
+            for i in range(len(self.QS)):
+                yield "slice-%d-is-numpys-result-for-that-percentile" % i, S.forall_nd(shape, lambda *k, i=i: S.same(S.at(result.values, i, *k), S.at(ref, i, *k)))
+            yield "metadata-kept", dict(result.attrs) == env["attrs0"]
+        yield "operand-untouched", _untouched(S, env, rank)
+
+    def canaries(self, S, case, env, result):
+        if S.is_dimarray(result):
+            yield "result-is-empty", S.shape(result.values)[-1] == 0
+        else:
+            yield "scalar-is-the-first-cell", S.same(result, S.at(env["data"], 0))
